@@ -15,6 +15,7 @@ use svproto::*;
 use serde::{Deserialize, Serialize};
 use svmodel::ast::*;
 use svmodel::hist::HistOpts;
+use svmodel::num::Expect;
 
 #[derive(Clone, Debug, Serialize, Deserialize)]
 pub enum Case02 {
@@ -162,47 +163,101 @@ fn check(ctx: &Ctx, ws: &mut Workers, c: &Case02, counting: bool, cfgs: &[Config
     }
 }
 
-pub fn check_arith(ctx: &Ctx, ws: &mut Workers, items: &[crate::checks::c10::Item], counting: bool, cfgs: &[Config]) -> PropResult {
-    // items one by one, so that an item that raises does not hide the others
-    for it in items {
-        for module in [false, true] {
-            let (case, shown) = crate::checks::c10::make_case(&[(0, it)], module);
-            let mut reference: Option<(String, String)> = None;
-            for cfg in std::iter::once(Config::jit_off()).chain(cfgs.iter().cloned()) {
-                let r = ws.run(&cfg, &case);
-                ctx.stats.engine_runs.fetch_add(1, std::sync::atomic::Ordering::Relaxed);
-                if r.end != End::Done {
-                    continue;
-                }
-                let Some(st) = r.steps.last() else { continue };
-                let obs = match st.outcome {
-                    Outcome::Ok => format!("ok {}", st.values.iter().filter(|v| *v != "#void").cloned().collect::<Vec<_>>().join(" ")),
-                    Outcome::Err => format!("error {}", st.err_kind),
-                    Outcome::Panic => format!("panic {}", st.err_msg),
-                };
-                match &reference {
-                    None => reference = Some((cfg.label(), obs)),
-                    Some((rl, ro)) => {
-                        if *ro != obs {
-                            let jit_on = !cfg.0.iter().any(|(k, v)| k == "STEEL_JIT" && v == "false");
-                            let class = if jit_on { "jitdiv" } else { "cfgdiv" };
-                            let sub = if obs.starts_with("panic") { "panic" } else if obs == "ok " { "lost-result-void" } else if ro.starts_with("error") { "missing-error" } else { "wrong-value" };
-                            return Err(Failure::new(
-                                format!("c02:{}:arith-{}", class, sub),
-                                format!("diverging configuration: {}
+fn arith_obs(st: &StepResult) -> String {
+    match st.outcome {
+        Outcome::Ok => format!("ok {}", st.values.iter().filter(|v| *v != "#void").cloned().collect::<Vec<_>>().join(" ")),
+        Outcome::Err => format!("error {}", st.err_kind),
+        Outcome::Panic => format!("panic {}", st.err_msg),
+    }
+}
+
+/// One item alone under every configuration; the observations must be identical.
+fn check_arith_single(ctx: &Ctx, ws: &mut Workers, it: &crate::checks::c10::Item, cfgs: &[Config]) -> PropResult {
+    for module in [false, true] {
+        let (case, shown) = crate::checks::c10::make_case(&[(0, it)], module);
+        let mut reference: Option<(String, String)> = None;
+        for cfg in std::iter::once(Config::jit_off()).chain(cfgs.iter().cloned()) {
+            let r = ws.run(&cfg, &case);
+            ctx.stats.engine_runs.fetch_add(1, std::sync::atomic::Ordering::Relaxed);
+            if r.end != End::Done {
+                continue;
+            }
+            let Some(st) = r.steps.last() else { continue };
+            let obs = arith_obs(st);
+            match &reference {
+                None => reference = Some((cfg.label(), obs)),
+                Some((rl, ro)) => {
+                    if *ro != obs {
+                        let jit_on = !cfg.0.iter().any(|(k, v)| k == "STEEL_JIT" && v == "false");
+                        let class = if jit_on { "jitdiv" } else { "cfgdiv" };
+                        let sub = if obs.starts_with("panic") { "panic" } else if obs == "ok " { "lost-result-void" } else if ro.starts_with("error") { "missing-error" } else { "wrong-value" };
+                        return Err(Failure::new(
+                            format!("c02:{}:arith-{}", class, sub),
+                            format!("diverging configuration: {}
 {}
 under {}: {}
 under {}: {}", cfg.label(), shown, rl, ro, cfg.label(), obs),
-                            ));
-                        }
+                        ));
                     }
                 }
             }
         }
     }
+    Ok(())
+}
+
+pub fn check_arith(ctx: &Ctx, ws: &mut Workers, items: &[crate::checks::c10::Item], counting: bool, cfgs: &[Config]) -> PropResult {
+    // The items the numeric model expects to succeed run together, one case per entry mode and configuration
+    // (the model only selects them; the oracle is the comparison of the configurations); when the batches
+    // differ anywhere - a value, the number of values, an error - every item of the batch is run alone,
+    // which also names the culprit.  Items expected to raise run alone (a raise ends a batch).
+    let oks: Vec<usize> = (0..items.len()).filter(|i| matches!(crate::checks::c10::expected(&items[*i]), Expect::Any(_))).collect();
+    let mut alone: Vec<usize> = (0..items.len()).filter(|i| !oks.contains(i)).collect();
+    if !oks.is_empty() {
+        let listed: Vec<(usize, &crate::checks::c10::Item)> = oks.iter().enumerate().map(|(pos, i)| (pos, &items[*i])).collect();
+        let mut differs = false;
+        for module in [false, true] {
+            let (case, _) = crate::checks::c10::make_case(&listed, module);
+            let mut reference: Option<String> = None;
+            for cfg in std::iter::once(Config::jit_off()).chain(cfgs.iter().cloned()) {
+                let r = ws.run(&cfg, &case);
+                ctx.stats.engine_runs.fetch_add(1, std::sync::atomic::Ordering::Relaxed);
+                let obs = match (r.end == End::Done, r.steps.last()) {
+                    (true, Some(st)) => arith_obs(st),
+                    _ => {
+                        differs = true;
+                        continue;
+                    }
+                };
+                if !obs.starts_with("ok ") {
+                    differs = true;
+                }
+                match &reference {
+                    None => reference = Some(obs),
+                    Some(ro) => {
+                        if *ro != obs {
+                            differs = true;
+                        }
+                    }
+                }
+            }
+        }
+        if differs {
+            alone.extend(oks.iter().copied());
+        }
+    }
+    for i in alone {
+        check_arith_single(ctx, ws, &items[i], cfgs)?;
+    }
     if counting {
         ctx.stats.eval();
         ctx.stats.class("arithmetic-batch");
+        ctx.stats.class_n("arithmetic-operator-applications", items.len() as u64);
+        for it in items {
+            if it.args.iter().any(|a| !a.is_exact()) {
+                ctx.stats.class("arithmetic-application-with-inexact-operand");
+            }
+        }
         ctx.stats.nontrivial(&format!("{:?}", items));
     }
     Ok(())
@@ -210,7 +265,10 @@ under {}: {}", cfg.label(), shown, rl, ro, cfg.label(), obs),
 
 pub fn run(ctx: &Ctx, replay: Option<&str>) -> i32 {
     ctx.set_rule(
-        "the C01 program generator and the C06 history generator; every case runs under 7 configurations (thorough: all 24 \
+        "the C01 program generator (5/8 of the cases), the C06 history generator (1/8) and batches of 40 numeric operator \
+         applications from the C10 generator - all operand classes incl. doubles, ratios and bignums, 11 syntactic shapes (1/4; the \
+         applications the numeric model expects to succeed run as one case per entry mode and configuration, and one by one \
+         when the configurations differ anywhere); every case runs under 7 configurations (thorough: all 24 \
          combinations of STEEL_JIT, STEEL_INLINE, STEEL_INLINE_RECURSIVE, STEEL_CLOSURE_LIFTING, STEEL_MODULE_INLINE without \
          INLINE+INLINE_RECURSIVE), programs both as top-level text and as a required module. A case is a violation when some \
          configurations agree with the reference interpreter and others do not. Non-trivial = distinct program that calls a \
@@ -248,15 +306,17 @@ pub fn run(ctx: &Ctx, replay: Option<&str>) -> i32 {
     }
     let total = ctx.n(2500, 60_000);
     let avoid = c01::avoid_list(ctx);
+    // development aid: VERIF_C02_ARITH=1 makes every case an arithmetic batch
+    let arith_only = std::env::var("VERIF_C02_ARITH").is_ok();
+    let arith_n = 40usize;
     let fails = run_prop(
         ctx,
         "cfg",
         || {
             let avoid = avoid.clone();
             (any::<bool>(), any::<bool>(), any::<bool>(), prop::collection::vec(any::<u16>(), 0..600)).prop_map(move |(a, b, c, d)| {
-                // one case in eight is a history
-                if a && b && !c {
-                    // one case in eight is a batch of numeric operator applications
+                if (a && b && !c) || (!a && !b && c) || arith_only {
+                    // one case in four is a batch of numeric operator applications
                     let mut runner = proptest::test_runner::TestRunner::new_with_rng(
                         proptest::test_runner::Config::default(),
                         proptest::test_runner::TestRng::from_seed(proptest::test_runner::RngAlgorithm::ChaCha, &{
@@ -268,9 +328,10 @@ pub fn run(ctx: &Ctx, replay: Option<&str>) -> i32 {
                             sd
                         }),
                     );
-                    let items: Vec<crate::checks::c10::Item> = (0..6).filter_map(|_| crate::checks::c10::item().new_tree(&mut runner).ok().map(|t| t.current())).collect();
+                    let items: Vec<crate::checks::c10::Item> = (0..arith_n).filter_map(|_| crate::checks::c10::item().new_tree(&mut runner).ok().map(|t| t.current())).collect();
                     Case02::Arith(items)
                 } else if a && b && c {
+                    // one case in eight is a history
                     Case02::Hist(c06::case_from_choices(&d, &HistOpts { avoid: c06::avoid(), max_ops: 25, fail_weight: 2, bulk: false }))
                 } else {
                     Case02::Prog(c01::case_from_choices(&d, c01::opts(avoid.clone())))
